@@ -35,6 +35,8 @@ F_STOPLOSS = 'C01-stoploss'
 F_D14 = 'D14'
 F_PEPSIN = 'D14b-lookbehind'
 F_ADJ = 'C01-nola-adjacent-sites'
+F_SECVOID = 'C02-fusion-sec-at-breakpoint'
+F_FUSCRASH = 'C01-fusion-expand-crash'
 
 # ------------------------------------------------------------------ rule classes (from the repo's table)
 _RC = {}
@@ -110,6 +112,15 @@ def run_batch(ctx, cases, want_may=True, tag='cv'):
                 reqs.append((('cv_realizable', [x, peps]), (ev, 'real', tx_id)))
                 if want_may:
                     reqs.append((('cv_may_novel', x), (ev, 'may', tx_id)))
+            # fusion backbones (Model/SpecFusion.v): soundness always, completeness when the run asks for it
+            for f in c.get('fusions', []):
+                if run.get('skip_oracle') or run_flags(run):
+                    continue
+                xd = CG.tx_input(c, f['donor_tx'], by_tx.get(f['donor_tx'], []), run, prots)
+                xa = CG.tx_input(c, f['acc_tx'], by_tx.get(f['acc_tx'], []), run, prots)
+                reqs.append((('cv_fusion_realizable', [xd, f['bp'], xa, f['abp'], peps]), (ev, 'real', f['id'])))
+                if run.get('fusion_must'):
+                    reqs.append((('cv_fusion_must', [xd, f['bp'], xa, f['abp']]), (ev, 'must', f['id'])))
             evs.append(ev)
     outs = O.call_parallel([q for q, _ in reqs], jobs=ctx.jobs)
     real = collections.defaultdict(lambda: None)
@@ -146,6 +157,13 @@ def unlimited(x):
     y = list(x)
     y[9] = [x[9][0], -1, 0, 1000000]
     return y
+
+def is_fusion_crash(ev):
+    """callVariant aborts in ThreeFrameTVG.expand_alignments ('Downstream node becomes empty ...') while
+    building the graph of a fusion transcript"""
+    r = ev.exc or {}
+    return (bool(ev.case.get('fusions')) and r.get('__exc__') == 'ValueError'
+            and 'expand_alignments' in r.get('tb', '') and 'call_peptide_fusion' in r.get('tb', ''))
 
 def _cds_end(case, tx_id):
     g, t = _tx_of(case, tx_id)
@@ -208,6 +226,12 @@ def classify(evs):
             if tag is None and ev.run['rule'] in rule_classes()['wide']:
                 if any(SG.substring_realizable(x, p) for x in ev.xs.values()):
                     tag = F_PEPSIN
+            if tag is None and not run_flags(ev.run):
+                for f in ev.case.get('fusions', []):
+                    xd = CG.tx_input(ev.case, f['donor_tx'], ev.recs.get(f['donor_tx'], []), ev.run)
+                    xa = CG.tx_input(ev.case, f['acc_tx'], ev.recs.get(f['acc_tx'], []), ev.run)
+                    if xd[5] and O.call('cv_fusion_realizable_secvoid', [xd, f['bp'], xa, f['abp'], [p]])[0]:
+                        tag = F_SECVOID
             if tag is None and not run_flags(ev.run):
                 # a site that needs look-behind (e.g. trypsin W-K-P) missed by the node-local evaluation
                 if any(O.call('cv_realizable_relaxed2', [x, [p]])[0] for x in ev.xs.values()):
